@@ -1102,44 +1102,53 @@ a failing input. -/
 theorem c08_shape_tls_makeVerifier :
     Shapes.network_tls_makeVerifier =
    ["mkNonce", "assign:nonce:=mkNonce(suite)", "func{", "defer{", "if:(err==nil)", "else", "}",
-     "if:(len(rawCerts)!=1)", "return:xerrors.New(\"\")", "x509.ParseCertificates",
-     "assign:certs,err:=x509.ParseCertificates(rawCerts[0])", "if:(err!=nil)", "return:err",
-     "if:(len(certs)!=1)", "return:xerrors.New(\"\")", "assign:cert:=certs[0]",
+     "if:(len(rawCerts)!=1)", "return:xerrors.New(\"expected exactly one certificate\")",
+     "x509.ParseCertificates", "assign:certs,err:=x509.ParseCertificates(rawCerts[0])",
+     "if:(err!=nil)", "return:err", "if:(len(certs)!=1)",
+     "return:xerrors.New(\"expected exactly one certificate\")", "assign:cert:=certs[0]",
      "x509.NewCertPool", "assign:self:=x509.NewCertPool()", "self.AddCert",
-     "assign:opts:=x509.VerifyOptions{Roots:self}", "cert.Verify",
-     "assign:_,err=cert.Verify(opts)", "if:(err!=nil)", "return:xerrors.Errorf(\"\",err)",
-     "if:(them!=nil)", "if:(len(cert.URIs)>0)",
-     "assign:cn:=fmt.Sprintf(\"\",pubToCN(them.Public))", "assign:found:=false",
-     "range:_,u:=cert.URIs{", "if:((u.Scheme==\"\")&&(u.Opaque==cn))", "assign:found=true",
-     "break", "}", "if:!found", "return:xerrors.Errorf(\"\",pubToCN(them.Public))", "else",
-     "if:(cert.Subject.CommonName!=pubToCN(them.Public))",
-     "return:xerrors.Errorf(\"\",cert.Subject.CommonName)", "range:_,x:=cert.Extensions{",
-     "if:oidDedisSig.Equal(x.Id)", "assign:sig=x.Value", "break", "}", "if:(sig==nil)",
-     "return:xerrors.New(\"\")", "assign:cn=cert.Subject.CommonName", "pubFromCN",
-     "assign:pub,err:=pubFromCN(suite,cn)", "if:(err!=nil)", "return:xerrors.Errorf(\"\",err)",
-     "if:((them!=nil)&&!pub.Equal(them.Public))", "return:xerrors.Errorf(\"\",cn)",
+     "args:self.AddCert(cert)", "assign:opts:=x509.VerifyOptions{Roots:self}", "cert.Verify",
+     "assign:_,err=cert.Verify(opts)", "if:(err!=nil)",
+     "return:xerrors.Errorf(\"certificate verification: %v\",err)", "if:(them!=nil)",
+     "if:(len(cert.URIs)>0)", "assign:cn:=fmt.Sprintf(\":%v\",pubToCN(them.Public))",
+     "assign:found:=false", "range:_,u:=cert.URIs{",
+     "if:((u.Scheme==\"onet-pubkey\")&&(u.Opaque==cn))", "assign:found=true", "break", "}",
+     "if:!found",
+     "return:xerrors.Errorf(\"No onet-pubkey URIs match the expected public key %v\",pubToCN(them.Public))",
+     "else", "if:(cert.Subject.CommonName!=pubToCN(them.Public))",
+     "return:xerrors.Errorf(\"certificate common-name %v not expected\",cert.Subject.CommonName)",
+     "range:_,x:=cert.Extensions{", "if:oidDedisSig.Equal(x.Id)", "assign:sig=x.Value", "break",
+     "}", "if:(sig==nil)", "return:xerrors.New(\"DEDIS signature not found\")",
+     "assign:cn=cert.Subject.CommonName", "pubFromCN", "assign:pub,err:=pubFromCN(suite,cn)",
+     "if:(err!=nil)", "return:xerrors.Errorf(\"decoding key: %v\",err)",
+     "if:((them!=nil)&&!pub.Equal(them.Public))",
+     "return:xerrors.Errorf(\"certificate common-name %v does not name the expected public key\",cn)",
      "bytes.NewBuffer", "assign:buf:=bytes.NewBuffer(nonce)", "asn1.Marshal",
-     "assign:subAsn1,err:=asn1.Marshal(cn)", "if:(err!=nil)", "return:xerrors.Errorf(\"\",err)",
-     "buf.Write", "buf.Bytes", "schnorr.Verify",
-     "assign:err=schnorr.Verify(suite,pub,buf.Bytes(),sig)", "if:(err!=nil)",
-     "return:xerrors.Errorf(\"\",err)", "return:nil", "}", "return:func,nonce"] := rfl
+     "assign:subAsn1,err:=asn1.Marshal(cn)", "if:(err!=nil)",
+     "return:xerrors.Errorf(\"marshaling: %v\",err)", "buf.Write", "args:buf.Write(subAsn1)",
+     "buf.Bytes", "schnorr.Verify", "assign:err=schnorr.Verify(suite,pub,buf.Bytes(),sig)",
+     "if:(err!=nil)", "return:xerrors.Errorf(\"certificate verification: %v\",err)",
+     "return:nil", "}", "return:func,nonce"] := rfl
 
 theorem c08_shape_tls_certMaker_get :
     Shapes.network_tls_certMaker_get =
-   ["if:(len(nonce)!=nonceSize)", "return:nil,xerrors.New(\"\")", "bytes.NewBuffer",
-     "assign:buf:=bytes.NewBuffer(nonce)", "buf.Write", "si.GetPrivate", "buf.Bytes",
-     "schnorr.Sign", "assign:sig,err:=schnorr.Sign(cm.suite,cm.si.GetPrivate(),buf.Bytes())",
-     "if:(err!=nil)", "return:nil,xerrors.Errorf(\"\",err)", "assign:serial:=new(big.Int)",
-     "random.New", "random.Bits", "assign:r:=random.Bits(128,true,random.New())",
-     "serial.SetBytes", "url.Parse",
-     "assign:uri,err:=url.Parse(fmt.Sprintf(\"\",cm.subj.CommonName))", "if:(err!=nil)",
-     "return:nil,err", "time.Now", "Now().Add", "time.Now", "Now().Add",
+   ["if:(len(nonce)!=nonceSize)", "return:nil,xerrors.New(\"nonce is the wrong size\")",
+     "bytes.NewBuffer", "assign:buf:=bytes.NewBuffer(nonce)", "buf.Write",
+     "args:buf.Write(cm.subjDer)", "si.GetPrivate", "buf.Bytes", "schnorr.Sign",
+     "assign:sig,err:=schnorr.Sign(cm.suite,cm.si.GetPrivate(),buf.Bytes())", "if:(err!=nil)",
+     "return:nil,xerrors.Errorf(\"signature verification: %v\",err)",
+     "assign:serial:=new(big.Int)", "random.New", "random.Bits",
+     "assign:r:=random.Bits(128,true,random.New())", "serial.SetBytes",
+     "args:serial.SetBytes(r)", "url.Parse",
+     "assign:uri,err:=url.Parse(fmt.Sprintf(\"onet-pubkey::%v\",cm.subj.CommonName))",
+     "if:(err!=nil)", "return:nil,err", "time.Now", "Now().Add", "time.Now", "Now().Add",
      "assign:tmpl:=&x509.Certificate{BasicConstraintsValid:true,IsCA:false,ExtKeyUsage:conv{x509.ExtKeyUsageServerAuth,x509.ExtKeyUsageClientAuth},NotAfter:time.Now().Add((2*time.Hour)),NotBefore:time.Now().Add((-5*time.Minute)),SerialNumber:serial,SignatureAlgorithm:x509.ECDSAWithSHA384,Subject:cm.subj,URIs:conv{uri},ExtraExtensions:conv{{Id:oidDedisSig,Critical:false,Value:sig}}}",
      "if:testNoURIs", "assign:tmpl.URIs=nil", "k.Public", "x509.CreateCertificate",
      "assign:cDer,err:=x509.CreateCertificate(rand.Reader,tmpl,tmpl,cm.k.Public(),cm.k)",
-     "if:(err!=nil)", "return:nil,xerrors.Errorf(\"\",err)", "x509.ParseCertificates",
-     "assign:certs,err:=x509.ParseCertificates(cDer)", "if:(err!=nil)",
-     "return:nil,xerrors.Errorf(\"\",err)", "if:(len(certs)<1)", "return:nil,xerrors.New(\"\")",
+     "if:(err!=nil)", "return:nil,xerrors.Errorf(\"certificate: %v\",err)",
+     "x509.ParseCertificates", "assign:certs,err:=x509.ParseCertificates(cDer)", "if:(err!=nil)",
+     "return:nil,xerrors.Errorf(\"certificate: %v\",err)", "if:(len(certs)<1)",
+     "return:nil,xerrors.New(\"no certificate found\")",
      "return:&tls.Certificate{PrivateKey:cm.k,Certificate:conv{cDer},Leaf:certs[0]},nil"] := rfl
 
 theorem c08_shape_tls_certMaker_getCertificate :
@@ -1166,12 +1175,14 @@ theorem c08_shape_tls_pubFromCN :
 
 theorem c08_shape_tls_pubToCN :
     Shapes.network_tls_pubToCN =
-   ["assign:w:=&bytes.Buffer{}", "pub.MarshalTo", "return:(\"\"+hex.EncodeToString(w.Bytes()))"] := rfl
+   ["assign:w:=&bytes.Buffer{}", "pub.MarshalTo", "args:pub.MarshalTo(w)",
+     "return:(\"Z\"+hex.EncodeToString(w.Bytes()))"] := rfl
 
 theorem c08_shape_tls_mkNonce :
     Shapes.network_tls_mkNonce =
-   ["s.RandomStream", "random.Bytes", "for:bytes.ContainsAny(buf[:],\"\"){", "s.RandomStream",
-     "random.Bytes", "}", "return:buf[:]"] := rfl
+   ["s.RandomStream", "random.Bytes", "args:random.Bytes(buf[:],s.RandomStream())",
+     "for:bytes.ContainsAny(buf[:],\".[]%\"){", "s.RandomStream", "random.Bytes",
+     "args:random.Bytes(buf[:],s.RandomStream())", "}", "return:buf[:]"] := rfl
 
 theorem c08_shape_tls_newCertMaker :
     Shapes.network_tls_newCertMaker =
@@ -1186,18 +1197,19 @@ theorem c08_shape_tls_NewTLSListenerWithListenAddr :
     Shapes.network_tls_NewTLSListenerWithListenAddr =
    ["NewTCPListenerWithListenAddr",
      "assign:tcp,err:=NewTCPListenerWithListenAddr(si.Address,suite,listenAddr)",
-     "if:(err!=nil)", "return:nil,xerrors.Errorf(\"\",err)", "tlsConfig",
+     "if:(err!=nil)", "return:nil,xerrors.Errorf(\"tls listener: %v\",err)", "tlsConfig",
      "assign:cfg,err:=tlsConfig(suite,si)", "if:(err!=nil)",
-     "return:nil,xerrors.Errorf(\"\",err)", "cloneTLSClientConfig",
+     "return:nil,xerrors.Errorf(\"tls config: %v\",err)", "cloneTLSClientConfig",
      "assign:cfg2:=cloneTLSClientConfig(cfg)", "x509.NewCertPool",
      "assign:cfg2.ClientCAs=x509.NewCertPool()", "makeVerifier",
      "assign:vrf,nonce:=makeVerifier(suite,nil)", "assign:cfg2.VerifyPeerCertificate=vrf",
-     "ClientCAs.AddCert", "return:cfg2,nil", "assign:cfg.GetConfigForClient=func",
+     "ClientCAs.AddCert", "args:cfg2.ClientCAs.AddCert(&x509.Certificate{RawSubject:nonce})",
+     "return:cfg2,nil", "assign:cfg.GetConfigForClient=func",
      "assign:cfg.ClientAuth=tls.RequireAnyClientCert", "tls.NewListener",
      "assign:tcp.listener=tls.NewListener(tcp.listener,cfg)", "return:tcp,nil"] := rfl
 
-theorem c08_shape___tls_NewTLSConn :
-    Shapes.network___tls_NewTLSConn =
+theorem c08_shape_tls_NewTLSConn_b3 :
+    Shapes.network_tls_NewTLSConn_b3 =
    ["if:(them.Address.ConnType()!=TLS)", "return:nil,xerrors.New(\"\")",
      "if:(us.GetPrivate()==nil)", "return:nil,xerrors.New(\"\")", "tlsConfig",
      "assign:cfg,err:=tlsConfig(suite,us)", "if:(err!=nil)",
